@@ -122,7 +122,8 @@ bool Component::ComponentImpl::performTestWithHistory(History &history, const Co
         }
 
         auto importedComponent = model->component(mComponent->importReference());
-        if (importedComponent == nullptr) {
+        if ((importedComponent == nullptr) || (importedComponent.get() == mComponent)) {
+            // Missing, or a component that imports itself (a cycle of length one, which the history cannot see).
             return false;
         }
 
